@@ -13,18 +13,25 @@ from . import lib_units as L
 PROPS = ['PGA.Props.C11']
 GEN = ['Chars', 'Units']
 OBLIGATIONS = ['PGA.Qty.' + t for t in [
-    'C11_incompatible_error', 'C11_incompatible_eq', 'C11_plain_nonzero_refused',
-    'C11_compatible_cmp', 'C11_compatible_cmp_reflected', 'C11_compatible_arith', 'C11_compatible_arith_reflected', 'C11_neg_abs',
+    'C11_incompatible_error', 'C11_incompatible_eq', 'C11_incompatible_integral', 'C11_plain_nonzero_refused', 'C11_refused_iff',
+    'C11_compatible_cmp', 'C11_same_dimension_cmp', 'C11_compatible_cmp_reflected',
+    'C11_compatible_arith', 'C11_same_dimension_arith', 'C11_compatible_arith_reflected',
+    'C11_same_units_symm_refl', 'C11_same_units_not_transitive', 'C11_has_units', 'C11_neg_abs',
     'C11_mul', 'C11_mul_dim_partial', 'C11_div', 'C11_div_dim_partial', 'C11_div_zero', 'C11_div_same_dim_plain',
     'C11_pow_int', 'C11_pow_dim_partial', 'C11_pow_dim',
-    'C11_conversion_incompatible_partial', 'C11_conversion_incompatible_integral', 'C11_conversion_full_false', 'C11_conversion_ratio']]
+    'C11_conversion_incompatible_partial', 'C11_conversion_incompatible_integral', 'C11_conversion_full_false', 'C11_conversion_ratio',
+    'C11_same_units_iff_division_cancels', 'C11_has_units_iff_converts', 'C11_conversion_within']]
 RULE = ('cases = (operation, left operand, right operand): exhaustive over ordered pairs of 14 operand kinds (the 7 base '
         'dimensions, force, energy, pressure, power, molar entropy, a plain number, the bare zero) x 13 operations '
         '(== != < <= > >= + - * / ** neg abs) + conversion, x 5 magnitude relations of the right operand (equal, smaller, '
         'larger, negative, zero), for scalar Quantity and ArrayQuantity operands (and mixed), units with non-unit SI factors '
-        'included (km vs m, kcal vs J); plus random magnitudes. Non-trivial = at least one operand is a quantity; distinct = '
+        'included (km vs m, kcal vs J); plus random magnitudes; plus pairs of one dimension whose non-integer exponent is reached by two '
+        'floating-point routes and pairs whose exponents differ by 0.5e-7, 1e-7, 2e-7 (the threshold of the units comparison). Non-trivial = at least one operand is a quantity; distinct = '
         'distinct (operation, operands).')
 ASSUMPTIONS = ['decimal-literal abstraction: magnitudes are exact decimals of the doubles held by the implementation; results compared to 1e-9 relative',
+               'comparison of exponents against the threshold: the model subtracts exactly and compares with the decimal 1e-7, numpy subtracts doubles '
+               '(exact for doubles within a factor 2 of each other) and compares with the double 1e-7 (4.5e-24 below); near-threshold cases hand the '
+               'exact values of the doubles to the model',
                'Python/numpy dispatch: the left operand\'s method runs if it is a quantity, otherwise the right operand\'s reflected method '
                '(exercised by the correspondence on plain numbers and ndarrays on the left)',
                'numpy array division by zero / negative base to a fractional power yields inf/nan with a warning: an explicit model outcome (nonfinite)']
@@ -70,8 +77,9 @@ def make(kind, unit, mags, array):
     return obj, si, c['dim']
 
 
-def jq(si, dim, array):
-    d = [common.jrat(common.frac_of_float(x)) for x in dim]
+def jq(si, dim, array, exact_dim=False):
+    """operand for the driver; exact_dim: the exponents as the exact values of the doubles (near-threshold cases)"""
+    d = [common.jrat(common.exact_of_float(x) if exact_dim else common.frac_of_float(x)) for x in dim]
     if array:
         return {'arr': [common.jrat(common.frac_of_float(x)) for x in si], 'dim': d}
     return {'val': common.jrat(common.frac_of_float(si[0])), 'dim': d}
@@ -104,12 +112,32 @@ def bcast(f, x, y, xa, ya):
     return [f(p, q) for p, q in zip(xs, ys)]
 
 
+THR = Fraction(1, 10 ** 7)
+
+
+def dims_relation(a_dim, b_dim):
+    """'same' (every exponent within the documented threshold of 1e-7, clearly), 'different' (some exponent farther, clearly),
+    'boundary' (the largest difference is within 1e-6 relative of the threshold: floating-point rounding decides — the
+    implementation is then compared with the model on the exact doubles only)"""
+    if list(a_dim) == list(b_dim):
+        return 'same'
+    d = max(abs(Fraction(float(x)) - Fraction(float(y))) for x, y in zip(a_dim, b_dim))
+    if d < THR * (1 - Fraction(1, 10 ** 6)):
+        return 'same'
+    if d > THR * (1 + Fraction(1, 10 ** 6)):
+        return 'different'
+    return 'boundary'
+
+
 def oracle(op, a_si, a_dim, a_arr, b_si, b_dim, b_arr):
     """what the property says about `a op b`; None = the property does not constrain this case"""
     a_q, b_q = any(a_dim), any(b_dim)
     a_zero = (not a_q) and all(v == 0 for v in a_si)
     b_zero = (not b_q) and all(v == 0 for v in b_si)
-    same = a_dim == b_dim
+    rel = dims_relation(a_dim, b_dim) if (a_q and b_q) else ('same' if a_dim == b_dim else 'different')
+    if rel == 'boundary' and op in ('add', 'sub', 'lt', 'le', 'gt', 'ge', 'eq', 'ne'):
+        return None
+    same = rel == 'same'
     arr = a_arr or b_arr
     if not a_q and not b_q:
         return None
@@ -179,32 +207,137 @@ ROUTE_PAIRS = [('m^0.1 m^0.2', 'm^0.3', 'm', '3/10'), ('s^1.1 s^2.2', 's^3.3', '
                ('kg^0.5 kg^0.25', 'kg^0.75', 'kg', '3/4'), ('m^0.1 m^0.2 m^0.7', 'm', 'm', '1'), ('cd^1.5 cd^1.5', 'cd^3', 'cd', '3')]
 
 
-def route_operand_cases(ctx):
+def route_operand_cases(ctx, batch):
     """two quantities of ONE dimension whose non-integer exponent was accumulated along different float routes
     (0.1 + 0.2 = 0.30000000000000004 against the literal 0.3): same dimension by the definitions, so they add, compare and
-    convert.  Conversion does (it snaps the residue of the division); +, -, ==, <, has_units compare the exponent arrays with
-    exact == and refuse: recorded finding FU5 for exactly that class (the two doubles differ by less than the package's own
-    1e-7 threshold); anything else is a violation."""
+    convert, with the value the SI magnitudes give.  (Before the repair FU5, `FundamentalUnits.__eq__` compared the exponent
+    arrays with exact == : + - < >= == has_units refused such pairs while in_units converted them.)  Any refusal is a violation."""
+    import numpy as np
     from pgradd.Units import eval_qty
     for ta, tb, base, e in ROUTE_PAIRS:
         k = L.PRIMS.index(base)
         want_dim = [float(Fraction(e)) if i == k else 0.0 for i in range(7)]
-        a2, b3, b2 = 2.0 * eval_qty(ta), 3.0 * eval_qty(tb), 2.0 * eval_qty(tb)
-        da, db = L.canon_value(a2).get('dim'), L.canon_value(b3).get('dim')
-        noisy = da is not None and db is not None and da != db and all(abs(x - y) < 1e-7 for x, y in zip(da, db))
-        cases = [('add', lambda: a2 + b3, {'val': 5.0, 'dim': want_dim}), ('sub', lambda: a2 - b3, {'val': -1.0, 'dim': want_dim}),
-                 ('lt', lambda: a2 < b3, {'bool': True}), ('ge', lambda: a2 >= b3, {'bool': False}),
-                 ('eq', lambda: a2 == b2, {'bool': True}), ('ne', lambda: a2 != b2, {'bool': False}),
-                 ('has_units', lambda: a2.has_units(tb), {'bool': True}), ('in_units', lambda: a2.in_units(tb), {'val': 2.0, 'dim': [0.0] * 7})]
-        for op, fn, exp in cases:
+        for arr in (False, True):
+            ma, mb = ([2.0, 7.0], [3.0, 5.0]) if arr else ([2.0], [3.0])
+            va, vb = (np.array(ma), np.array(mb)) if arr else (ma[0], mb[0])
+            a2, b3, b2 = va * eval_qty(ta), vb * eval_qty(tb), va * eval_qty(tb)
+            ua, ub = eval_qty(tb), eval_qty(ta)
+            da, db = L.canon_value(a2).get('dim'), L.canon_value(b3).get('dim')
+
+            def out(f, dim=None, x=ma, y=mb):
+                r = [f(p, q) for p, q in zip(x, y)]
+                if dim is None:
+                    return {'bools': r} if arr else {'bool': r[0]}
+                return {'arr': r, 'dim': dim} if arr else {'val': r[0], 'dim': dim}
+            cases = [('add', lambda: a2 + b3, out(operator.add, want_dim), b3), ('sub', lambda: a2 - b3, out(operator.sub, want_dim), b3),
+                     ('radd', lambda: b3 + a2, out(operator.add, want_dim), None), ('rsub', lambda: b3 - a2, out(operator.sub, want_dim, mb, ma), None),
+                     ('lt', lambda: a2 < b3, out(operator.lt), b3), ('le', lambda: a2 <= b3, out(operator.le), b3),
+                     ('gt', lambda: a2 > b3, out(operator.gt), b3), ('ge', lambda: a2 >= b3, out(operator.ge), b3),
+                     ('eq', lambda: a2 == b2, out(operator.eq, None, ma, ma), b2), ('ne', lambda: a2 != b2, out(operator.ne, None, ma, ma), b2),
+                     ('eq', lambda: a2 == b3, out(operator.eq), b3), ('ne', lambda: a2 != b3, out(operator.ne), b3),
+                     ('has_units', lambda: a2.has_units(tb), {'bool': True}, ua), ('has_units(Quantity)', lambda: a2.has_units(ua), {'bool': True}, ua),
+                     ('has_units(FundamentalUnits)', lambda: a2.has_units(ua.units), {'bool': True}, ua),
+                     ('has_units', lambda: b3.has_units(ta), {'bool': True}, None),
+                     ('in_units', lambda: a2.in_units(tb), out(lambda p, q: p, [0.0] * 7), ua),
+                     ('in_units', lambda: b3.in_units(ta), out(lambda p, q: q, [0.0] * 7), None)]
+            for op, fn, exp, other in cases:
+                r = run_op(fn)
+                ctx.case(json.dumps(['route', op, ta, tb, arr, exp]), None)
+                ctx.count('route_operands')
+                ctx.count('route_operands_' + ('different_doubles' if da != db else 'same_doubles'))
+                inp = {'route_pair': [ta, tb], 'operation': op, 'array': arr, 'exponent_by_definition': '%s^(%s)' % (base, e),
+                       'float_exponents': [da[k], db[k]] if da and db else None}
+                if not agrees(r, exp, (max(ma) + max(mb)) if op in ('add', 'sub', 'radd', 'rsub') else 0.0):
+                    ctx.violation('two quantities of one dimension (a non-integer exponent reached by different float routes) are not '
+                                  'combined / compared as quantities of one dimension (%s)' % op, inp, exp, r)
+                if other is not None:
+                    oc = L.canon_value(other)
+                    osi = oc['arr'] if 'arr' in oc else [oc['val']]
+                    req = {'a': jq(ma, da, arr, True), 'b': jq(osi, oc['dim'], 'arr' in oc, True)}
+                    req.update({'op': 'c11.has_units'} if op.startswith('has_units') else {'op': 'c11.in_units'} if op == 'in_units'
+                               else {'op': 'c11.binop', 'operator': op})
+                    batch.append((req, r, dict(inp, op=op, a={'si': ma}, b={'si': osi})))
+
+
+# ------------------------------------------------------------------------------ exponents next to the threshold of the comparison
+# (exponent of the right operand, on which base); the left operand's exponent is that plus / minus 0.5e-7, 1e-7, 2e-7, written
+# as a decimal literal (m^0.30000005).  0.5e-7: same units; 2e-7: different units; 1e-7 exactly: rounding of the two doubles
+# decides (0.3000001 - 0.3 = 1.0000000000287557e-07 is refused, 0.5000001 - 0.5 = 9.999999994736442e-08 accepted) — there the
+# implementation is only compared with the model, which gets the exact values of the doubles.
+NEAR_BASES = [('0.3', 'm'), ('0.7', 's'), ('1.3', 'kg'), ('2.5', 'K'), ('0.5', 'mol'), ('3.3', 'A'), ('0.1', 'cd'), ('0.25', 'm'), ('0.75', 's')]
+NEAR_DELTAS = ['0.00000005', '0.0000001', '0.0000002']
+NEAR_OPS = [('add', operator.add), ('sub', operator.sub), ('lt', operator.lt), ('le', operator.le), ('gt', operator.gt),
+            ('ge', operator.ge), ('eq', operator.eq), ('ne', operator.ne)]
+
+
+def near_pairs():
+    from decimal import Decimal
+    out = []
+    for e0, base in NEAR_BASES:
+        for dl in NEAR_DELTAS:
+            for sg in (1, -1):
+                e1 = Decimal(e0) + sg * Decimal(dl)
+                out.append(('%s^%s' % (base, format(e1, 'f')), '%s^%s' % (base, e0)))
+    # two bases: one exponent within the threshold, the other one beyond it (every exponent must be within), and both within
+    out.append(('m^0.30000005 s^0.5000002', 'm^0.3 s^0.5'))
+    out.append(('m^0.30000005 s^0.49999995', 'm^0.3 s^0.5'))
+    out.append(('J^0.30000002', 'J^0.3'))        # kg^0.3 m^0.6 s^-0.6: the distance doubles and triples with the exponents of J
+    out.append(('J^0.30000004', 'J^0.3'))
+    out.append(('J^0.3000001', 'J^0.3'))
+    return out
+
+
+def near_case(ctx, batch, ta, tb, only=None):
+    import numpy as np
+    from pgradd.Units import eval_qty
+    ua, ub = eval_qty(ta), eval_qty(tb)
+    for a_arr, b_arr in ((False, False), (True, True), (True, False)):
+        ma, mb = [2.0, 7.0][:2 if a_arr else 1], [3.0, 5.0][:2 if b_arr else 1]
+        A = ((np.array(ma) if a_arr else ma[0]) * ua)
+        B = ((np.array(mb) if b_arr else mb[0]) * ub)
+        ca, cb = L.canon_value(A), L.canon_value(B)
+        sa, sb = (ca['arr'] if a_arr else [ca['val']]), (cb['arr'] if b_arr else [cb['val']])
+        da, db = ca['dim'], cb['dim']
+        rel = dims_relation(da, db)
+        todo = []
+        for x, xs, xd, xarr, y, ys, yd, yarr, order in ((A, sa, da, a_arr, B, sb, db, b_arr, 'ab'), (B, sb, db, b_arr, A, sa, da, a_arr, 'ba')):
+            for op, fn in NEAR_OPS:
+                todo.append((op, order, (lambda fn=fn, x=x, y=y: fn(x, y)), oracle(op, xs, xd, xarr, ys, yd, yarr),
+                             {'op': 'c11.binop', 'operator': op, 'a': jq(xs, xd, xarr, True), 'b': jq(ys, yd, yarr, True)}, xs, ys))
+            for how, arg in (('has_units', tb if order == 'ab' else ta), ('has_units(Quantity)', y), ('has_units(FundamentalUnits)', L_units(y))):
+                todo.append((how, order, (lambda x=x, arg=arg: x.has_units(arg)), None if rel == 'boundary' else {'bool': rel == 'same'},
+                             {'op': 'c11.has_units', 'a': jq(xs, xd, xarr, True), 'b': jq(ys, yd, yarr, True)}, xs, ys))
+            if not yarr:
+                want = [v / ys[0] for v in xs]
+                exp = None if rel == 'boundary' else {'err': 'unitsError'} if rel == 'different' else (
+                    {'arr': want, 'dim': [0.0] * 7} if xarr else {'val': want[0], 'dim': [0.0] * 7})
+                todo.append(('in_units', order, (lambda x=x, y=y: x.in_units(y)), exp,
+                             {'op': 'c11.in_units', 'a': jq(xs, xd, xarr, True), 'b': jq(ys, yd, False, True)}, xs, ys))
+        for op, order, fn, exp, req, xs, ys in todo:
+            if only is not None and only != [op, order, a_arr, b_arr]:
+                continue
             r = run_op(fn)
-            ctx.case(json.dumps(['route', op, ta, tb]), None)
-            ctx.count('route_operands')
-            if not agrees(r, exp):
-                ctx.violation('two quantities of one dimension (a non-integer exponent reached by different float routes) are not '
-                              'combined / compared as quantities of one dimension (%s)' % op,
-                              {'route_pair': [ta, tb], 'operation': op, 'exponent_by_definition': '%s^(%s)' % (base, e),
-                               'float_exponents': [da[k], db[k]]}, exp, r, finding='FU5' if (noisy and op != 'in_units') else None)
+            inp = {'near_threshold': [ta, tb], 'operation': op, 'order': order, 'arrays': [a_arr, b_arr],
+                   'float_exponents': [da, db], 'relation': rel, 'op': op, 'a': {'si': xs}, 'b': {'si': ys}}
+            ctx.case(json.dumps(['near', op, order, ta, tb, a_arr, b_arr]), None)
+            ctx.count('near_threshold')
+            ctx.count('near_threshold_' + rel)
+            ctx.count('near_threshold_impl_' + ('refused' if r.get('err') == 'unitsError' or r.get('bool') is False and op.startswith('has_units') else 'other'))
+            if exp is not None and not agrees(r, exp, scale_of(inp)):
+                ctx.violation('quantities whose exponents are %s are not %s (%s)' % (
+                    'within the documented threshold (1e-7) of each other' if rel == 'same' else 'farther apart than the documented threshold (1e-7)',
+                    'combined / compared as quantities of one dimension' if rel == 'same' else 'refused', op), inp, exp, r)
+            batch.append((req, r, inp))
+
+
+def L_units(q):
+    from pgradd.Units import Quantity
+    return q.units if isinstance(q, Quantity) else q._units
+
+
+def near_threshold_cases(ctx, batch):
+    for ta, tb in near_pairs():
+        near_case(ctx, batch, ta, tb)
 
 
 def short_lived(obj, dim):
@@ -578,8 +711,9 @@ def _run(ctx):
     construction_cases(ctx)
     # augmented assignment: += -= *= /= **= on scalar and array quantities, and running totals
     inplace_cases(ctx, batch)
-    # one dimension written by two float routes
-    route_operand_cases(ctx)
+    # one dimension written by two float routes; exponents next to the threshold of the units comparison
+    route_operand_cases(ctx, batch)
+    near_threshold_cases(ctx, batch)
     # random magnitudes on random pairs
     for i in range(ctx.n(3000, 200000)):
         (ka, ua, _), (kb, _, ub) = rng.choice(KINDS), rng.choice(KINDS)
@@ -656,8 +790,6 @@ def _replay(ctx, rec, batch):
     from pgradd.Units import Quantity, FundamentalUnits
     inp = rec.get('input', rec)
     before = len(ctx.violations)
-    if 'route_pair' in inp:
-        before += sum(k['count'] for k in ctx.known_seen.values())
 
     def build(o):
         prim = list(FundamentalUnits._primitive_units)
@@ -670,10 +802,14 @@ def _replay(ctx, rec, batch):
         global ROUTE_PAIRS
         keep, ROUTE_PAIRS = ROUTE_PAIRS, [p for p in ROUTE_PAIRS if [p[0], p[1]] == inp['route_pair']]
         try:
-            route_operand_cases(ctx)
+            route_operand_cases(ctx, batch)
         finally:
             ROUTE_PAIRS = keep
-        return len(ctx.violations) + sum(k['count'] for k in ctx.known_seen.values()) == before
+        return len(ctx.violations) == before
+    if 'near_threshold' in inp:
+        near_case(ctx, batch, inp['near_threshold'][0], inp['near_threshold'][1],
+                  [inp['operation'], inp['order']] + list(inp['arrays']))
+        return len(ctx.violations) == before
     if 'running_total' in inp:
         h = inp['running_total']
         running_total(ctx, h['start_unit'], h['term_unit'], h['terms'], h['array'], h['subtract'])
@@ -725,9 +861,11 @@ def replay(ctx, rec):
 
 
 LEVEL_TEXT = ('Lean 4 theorems over an executable model of the quantity algebra (pgradd/Units/qty.py), for all pairs of operands '
-              '(scalar or array of any length, any rational magnitudes, any dimension): different dimensions make + - < <= > >= and '
+              '(scalar or array of any length, any rational magnitudes, any dimension): dimensions differing by more than the documented '
+              'threshold (1e-7) in some exponent — for integer exponents: any different dimensions — make + - < <= > >= and '
               'conversion end in the units error and == false (!= true), a bare zero being the only dimensionless operand accepted; '
-              'equal dimensions make every operator agree with the operation on SI magnitudes; * / ** add, subtract and scale the '
+              'equal dimensions (and dimensions within the threshold in every exponent, which is exactly when conversion succeeds) '
+              'make every operator agree with the operation on SI magnitudes, sums carrying the left operand\'s units; * / ** add, subtract and scale the '
               'dimension and the result is a plain number exactly when the dimension cancels. Tied to the code by a correspondence run '
               'exhaustive over dimension pairs x operations x magnitude relations x scalar/array shapes.')
 LEVEL_NOTE = ('Trusted: Lean kernel; standard axioms; the correspondence harness; the decimal-literal abstraction; Python/numpy operator '
